@@ -27,6 +27,7 @@ theorem facts_match :
     FactsC18.defaultCheckerIsFirstChunk = true ∧
     FactsC18.toolsPreSetsReturnDirectlyId = true ∧
     FactsC18.pregelAnyPredecessor = true ∧
+    FactsC18.exportedAnyPredecessor = true ∧
     FactsC18.stepGuardGE = true ∧
     FactsC18.maxStepsBelowOneRejected = true := by decide
 
@@ -272,6 +273,98 @@ theorem generate_eq_stream_whole {F : Facts} (hF : genFacts = some F) (cfg : Con
   simp only [Config.checkerSpec, hc]
   rw [whole_chunks, whole_single]; rfl
 
+/-! ## chunk metadata, and the agent embedded through `ExportGraph` -/
+
+/-- **Provider metadata on chunks is irrelevant.** Whatever else the streamed chunks carry
+    (`Extra` entries, `ResponseMeta`, `Name`, … — `Chunk.extras`), model inputs, node executions
+    and the answer are those of the script with the metadata removed; in particular a head
+    chunk that has neither content nor tool calls is skipped by the default checker whether or
+    not it carries metadata (clauses "returns the first assistant message without tool calls",
+    "Generate and Stream give the same answer" for such scripts). -/
+theorem react_ignores_chunk_metadata {F : Facts} (hF : genFacts = some F) (cfg : Config)
+    (mode : Mode) (orig : List Msg) (script : List Reply) :
+    run F cfg mode orig (script.map Reply.bare) = run F cfg mode orig script := by
+  rw [facts_eq hF, run_eq, run_eq]
+  cases hl : stepLimit Expected.C18.facts cfg with
+  | none => rfl
+  | some l =>
+    simp only
+    rw [rounds_map cfg _ Reply.bare full_bare (goes_bare _ cfg mode) script l orig]
+
+/-- two scripts that differ only in chunk metadata give the same run -/
+theorem react_metadata_congr {F : Facts} (hF : genFacts = some F) (cfg : Config)
+    (mode : Mode) (orig : List Msg) (s1 s2 : List Reply)
+    (h : s1.map Reply.bare = s2.map Reply.bare) :
+    run F cfg mode orig s1 = run F cfg mode orig s2 := by
+  rw [← react_ignores_chunk_metadata hF cfg mode orig s1,
+      ← react_ignores_chunk_metadata hF cfg mode orig s2, h]
+
+/-- `ToolCallsInFirstNonEmptyChunk` does not depend on metadata: chunks in front of the first
+    tool call that carry only metadata count as blank. -/
+theorem toolCallsInFirstNonEmptyChunk_bare (r : Reply) :
+    ToolCallsInFirstNonEmptyChunk r.bare ↔ ToolCallsInFirstNonEmptyChunk r := by
+  have hagree : ∀ r : Reply, ToolCallsInFirstNonEmptyChunk r ↔
+      (r.full.calls = [] ∨ runChecker Expected.C18.firstChunkChecker r.chunks = true) := by
+    intro r
+    constructor
+    · intro h
+      by_cases hc : r.full.calls = []
+      · exact .inl hc
+      · right
+        rw [firstChunk_agree r h, firstChunk_single]
+        cases hcc : r.full.calls with
+        | nil => exact absurd hcc hc
+        | cons x xs => rfl
+    · rintro (h | h)
+      · exact .inl h
+      · right
+        -- the checker answered true: walk to the chunk where it did
+        have : ∀ cs : List Chunk, runChecker Expected.C18.firstChunkChecker cs = true →
+            ∃ pre c post, cs = pre ++ c :: post ∧ (∀ x ∈ pre, x.blank) ∧ c.calls ≠ [] := by
+          intro cs
+          induction cs with
+          | nil => intro h; simp [runChecker, Expected.C18.firstChunkChecker] at h
+          | cons c cs ih =>
+            intro h
+            by_cases hcalls : c.calls = []
+            · by_cases hcont : c.content = ""
+              · have hstep : runChecker Expected.C18.firstChunkChecker (c :: cs)
+                    = runChecker Expected.C18.firstChunkChecker cs := by
+                  simp [runChecker, chunkAct, Expected.C18.firstChunkChecker, CheckCond.holds, hcalls, hcont]
+                obtain ⟨pre, c', post, hcs, hpre, hc'⟩ := ih (hstep ▸ h)
+                refine ⟨c :: pre, c', post, by simp [hcs], ?_, hc'⟩
+                intro x hx
+                rcases List.mem_cons.mp hx with rfl | hx
+                · exact ⟨hcont, hcalls⟩
+                · exact hpre x hx
+              · simp [runChecker, chunkAct, Expected.C18.firstChunkChecker, CheckCond.holds, hcalls, hcont] at h
+            · exact ⟨[], c, cs, rfl, by simp, hcalls⟩
+        exact this r.chunks h
+  rw [hagree r.bare, hagree r, full_bare]
+  show (_ ∨ runChecker _ (r.chunks.map Chunk.bare) = true) ↔ _
+  rw [runChecker_bare]
+
+/-- **The embedded agent is the same agent.** Run as the graph returned by
+    `Agent.ExportGraph()` inside a parent chain / graph (added with the returned options), the
+    agent gives the run `Agent.Generate`/`Agent.Stream` give — same model inputs, node
+    executions, answer, and in particular the same step limit (`MaxStep`, not compose's
+    default): every theorem above applies to it. -/
+theorem react_exported_graph_same {F : Facts} (hF : genFacts = some F) (host : Host)
+    (cfg : Config) (mode : Mode) (orig : List Msg) (script : List Reply) :
+    runAt F host cfg mode orig script = run F cfg mode orig script := by
+  rw [facts_eq hF]
+  cases host <;> rfl
+
+/-- the step limit in force inside a parent graph is the configured one (clause "stops with
+    the step-limit error", quantified over every step limit, for the exported graph) -/
+theorem react_exported_step_limit {F : Facts} (hF : genFacts = some F) (cfg : Config) :
+    stepLimit F.exported cfg =
+      if cfg.maxStep = 0 then some (if cfg.returnDirectly.isEmpty then 12 else 13)
+      else if cfg.maxStep < 0 then none else some cfg.maxStep.toNat := by
+  have h : F.exported = F := by rw [facts_eq hF]; rfl
+  rw [h]
+  exact react_step_limit hF cfg
+
 /-! ## the negation witness, non-vacuity -/
 
 /-- **Known finding (DESIGN §5, known_findings/C18.json).** Without the hypothesis the
@@ -299,29 +392,50 @@ theorem generate_ne_stream_witness :
 
 /-- the hypothesis is satisfiable by replies with tool calls and several chunks, and then
     both modes run the tool and agree -/
-example : ToolCallsInFirstNonEmptyChunk ⟨[⟨"", []⟩, ⟨"a", [⟨"c1", "t", "x"⟩]⟩, ⟨"b", []⟩]⟩ :=
-  .inr ⟨[⟨"", []⟩], ⟨"a", [⟨"c1", "t", "x"⟩]⟩, [⟨"b", []⟩], rfl, by simp [Chunk.blank], by simp⟩
+example : ToolCallsInFirstNonEmptyChunk ⟨[⟨"", [], []⟩, ⟨"a", [⟨"c1", "t", "x"⟩], []⟩, ⟨"b", [], []⟩]⟩ :=
+  .inr ⟨[⟨"", [], []⟩], ⟨"a", [⟨"c1", "t", "x"⟩], []⟩, [⟨"b", [], []⟩], rfl, by simp [Chunk.blank], by simp⟩
 
 example : run Expected.C18.facts (wCfg [] 0) .stream wOrig
-            [⟨[⟨"", []⟩, ⟨"a", [⟨"c1", "t", "x"⟩]⟩, ⟨"b", []⟩]⟩, wDone]
+            [⟨[⟨"", [], []⟩, ⟨"a", [⟨"c1", "t", "x"⟩], []⟩, ⟨"b", [], []⟩]⟩, wDone]
     = { seen := [wOrig, wOrig ++ [⟨.assistant, "ab", [⟨"c1", "t", "x"⟩], ""⟩, ⟨.tool, "t(x)", [], "c1"⟩]],
         evs := [.chat, .tools [⟨"c1", "t", "x"⟩], .chat],
         result := .ok ⟨.assistant, "done", [], ""⟩ } := by decide
 
 /-- return-directly: three node executions, the tool's message is the answer -/
-example : run Expected.C18.facts (wCfg ["t"] 0) .generate wOrig [⟨[⟨"", [⟨"c1", "t", "x"⟩]⟩]⟩, wDone]
+example : run Expected.C18.facts (wCfg ["t"] 0) .generate wOrig [⟨[⟨"", [⟨"c1", "t", "x"⟩], []⟩]⟩, wDone]
     = { seen := [wOrig], evs := [.chat, .tools [⟨"c1", "t", "x"⟩], .direct],
         result := .ok ⟨.tool, "t(x)", [], "c1"⟩ } := by decide
 
 /-- the step limit bites: a model that always calls the tool, MaxStep 4 -/
 example : (run Expected.C18.facts (wCfg [] 4) .generate wOrig
-            [⟨[⟨"", [⟨"c1", "t", "x"⟩]⟩]⟩, ⟨[⟨"", [⟨"c2", "t", "y"⟩]⟩]⟩, ⟨[⟨"", [⟨"c3", "t", "z"⟩]⟩]⟩]).result
+            [⟨[⟨"", [⟨"c1", "t", "x"⟩], []⟩]⟩, ⟨[⟨"", [⟨"c2", "t", "y"⟩], []⟩]⟩, ⟨[⟨"", [⟨"c3", "t", "z"⟩], []⟩]⟩]).result
     = .error .maxSteps := by decide
 
 /-- a changed fact changes the model: if the tools pre-handler did not append, the second
     model call would not see the assistant message -/
 example : (run { Expected.C18.facts with toolsPreAppends := false } (wCfg [] 0) .generate wOrig
-            [⟨[⟨"", [⟨"c1", "t", "x"⟩]⟩]⟩, wDone]).seen
+            [⟨[⟨"", [⟨"c1", "t", "x"⟩], []⟩]⟩, wDone]).seen
     = [wOrig, wOrig ++ [⟨.tool, "t(x)", [], "c1"⟩]] := by decide
+
+/-- a head chunk carrying only metadata is skipped: Stream runs the tool like Generate -/
+example : ToolCallsInFirstNonEmptyChunk wMetaHead :=
+  .inr ⟨[⟨"", [], ["extra:request_id"]⟩], ⟨"", [⟨"c1", "t", "x"⟩], []⟩, [], rfl, by simp [Chunk.blank], by simp⟩
+
+example : run Expected.C18.facts (wCfg [] 0) .stream wOrig [wMetaHead, wDone]
+    = { seen := [wOrig, wOrig ++ [⟨.assistant, "", [⟨"c1", "t", "x"⟩], ""⟩, ⟨.tool, "t(x)", [], "c1"⟩]],
+        evs := [.chat, .tools [⟨"c1", "t", "x"⟩], .chat],
+        result := .ok ⟨.assistant, "done", [], ""⟩ } := by decide
+
+/-- a changed fact changes the model: were `MaxStep` not among the exported compile options,
+    the embedded agent would run under compose's default (12) instead of `MaxStep` = 4 -/
+example : stepLimit ({ Expected.C18.facts with maxStepExported := false }).exported (wCfg [] 4) = some 12 ∧
+    stepLimit Expected.C18.facts.exported (wCfg [] 4) = some 4 := by decide
+
+example : (runAt { Expected.C18.facts with maxStepExported := false } .exported (wCfg [] 4) .generate wOrig
+            [⟨[⟨"", [⟨"c1", "t", "x"⟩], []⟩]⟩, ⟨[⟨"", [⟨"c2", "t", "y"⟩], []⟩]⟩, wDone]).result
+      = .ok ⟨.assistant, "done", [], ""⟩ ∧
+    (runAt Expected.C18.facts .exported (wCfg [] 4) .generate wOrig
+            [⟨[⟨"", [⟨"c1", "t", "x"⟩], []⟩]⟩, ⟨[⟨"", [⟨"c2", "t", "y"⟩], []⟩]⟩, wDone]).result
+      = .error .maxSteps := by decide
 
 end EinoV.C18
